@@ -2,6 +2,7 @@ import Heph.Spec.Typing
 import Heph.Model.CondType
 import Heph.Model.GenVar
 import Heph.Model.GenFuncRef
+import Heph.Model.GenNew
 import Heph.Props.C06
 import Heph.Proofs.CheckSound
 import Heph.Proofs.CheckSubD
@@ -524,6 +525,233 @@ example :
     sigtypeCompatible [] ⟨"h", tT, [tT], fn1K⟩ (mkP fn1K [longK, longK]) [(tT, longK)] true false .whole = .yes ∧
     sigtypeCompatible [] ⟨"h", tT, [tT], fn1K⟩ (mkP fn1K [longK, longK]) [(tT, floatK)] true false .whole = .no ∧
     sigtypeCompatible [] ⟨"fld", mkP fn1K [longK, floatK], [], fn1K⟩ numK [] false true .lastArg = .yes := by
+  decide
+
+/-! ## 6. Decision point `gen_new` (with `_get_subclass`): the class instantiated and the expected
+       types of the constructor arguments -/
+
+/-- **`_get_subclass`**: every class the random choice may draw is a regular class in scope whose
+    type is `==` to the expected type (its constructor, for a generic class) or — with `subtype` —
+    answered yes to the code's own `is_subtype` test against the expected type -/
+theorem subclass_sound (classes : List ClassCand) (etype : Ty) (ename : String) (sub : Bool) (c : ClassCand)
+    (h : c ∈ subclassCandidates classes etype ename sub) :
+    c ∈ classes ∧ c.regular = true ∧
+      ((c.parameterized = false ∧ beq c.ty etype = true) ∨
+       (c.parameterized = true ∧ ∃ tc, tconOf etype = some tc ∧ beq c.ty tc = true) ∨
+       (sub = true ∧ isSubtype c.ty etype = .yes)) := by
+  have hk : c ∈ classes ∧ subclassKeeps etype sub c = true := by
+    unfold subclassCandidates at h
+    simp only [] at h
+    split at h
+    · exact List.mem_filter.1 h
+    · exact List.mem_filter.1 (List.mem_filter.1 h).1
+  obtain ⟨hm, hk⟩ := hk
+  simp only [subclassKeeps, Bool.and_eq_true, Bool.or_eq_true] at hk
+  obtain ⟨hr, hk⟩ := hk
+  refine ⟨hm, hr, ?_⟩
+  rcases hk with hk | ⟨hs, hy⟩
+  · by_cases hp : c.parameterized = true
+    · simp only [hp, if_true] at hk
+      cases ht : tconOf etype with
+      | none => rw [ht] at hk; cases hk
+      | some tc => rw [ht] at hk; exact Or.inr (Or.inl ⟨hp, tc, rfl, hk⟩)
+    · simp only [hp] at hk
+      exact Or.inl ⟨by simpa using hp, hk⟩
+  · exact Or.inr (Or.inr ⟨hs, (res_beq_yes _).1 hy⟩)
+
+/-- a class of the expected type's own name is preferred: when one passed the test, only such
+    classes are offered -/
+theorem subclass_prefers_own (classes : List ClassCand) (etype : Ty) (ename : String) (sub : Bool)
+    (o : ClassCand) (ho : o ∈ classes) (hk : subclassKeeps etype sub o = true) (hn : o.name = ename)
+    (c : ClassCand) (h : c ∈ subclassCandidates classes etype ename sub) : c.name = ename := by
+  unfold subclassCandidates at h
+  simp only [] at h
+  split at h
+  · rename_i he
+    have : o ∈ (classes.filter (subclassKeeps etype sub)).filter fun s => s.name == ename :=
+      List.mem_filter.2 ⟨List.mem_filter.2 ⟨ho, hk⟩, by simpa using hn⟩
+    rw [List.isEmpty_iff.1 he] at this
+    cases this
+  · simpa using (List.mem_filter.1 h).2
+
+/-- what the recorded-call refinement of `_get_subclass` means -/
+theorem subclass_refines_some (classes : List ClassCand) (etype : Ty) (ename : String) (sub : Bool) (n : String)
+    (h : subclassRefines classes etype ename sub (some n) = true) :
+    ∃ c ∈ subclassCandidates classes etype ename sub, c.name = n := by
+  simpa [subclassRefines] using h
+
+theorem subclass_refines_none (classes : List ClassCand) (etype : Ty) (ename : String) (sub : Bool)
+    (h : subclassRefines classes etype ename sub none = true) :
+    ∀ c ∈ classes, subclassKeeps etype sub c = false := by
+  unfold subclassRefines subclassCandidates at h
+  simp only [] at h
+  by_cases he : ((classes.filter (subclassKeeps etype sub)).filter fun s => s.name == ename).isEmpty = true
+  · simp only [he, if_true] at h
+    intro c hc
+    simpa using List.filter_eq_nil_iff.1 (List.isEmpty_iff.1 h) c hc
+  · simp only [he] at h
+    exact absurd h he
+
+private theorem typeParamMap_some (tparams : List Ty) (etype : Ty) (m : TMap) (h : typeParamMap tparams etype = some m) :
+    (tparams = [] ∧ m = []) ∨
+    (tparams ≠ [] ∧ ∃ targs, newTypeArgs etype = some targs ∧ tparams.length ≤ targs.length ∧ m = TMap.mk tparams targs) := by
+  unfold typeParamMap at h
+  by_cases he : tparams.isEmpty = true
+  · simp only [he, if_true, Option.some.injEq] at h
+    exact Or.inl ⟨List.isEmpty_iff.1 he, h.symm⟩
+  · simp only [he] at h
+    refine Or.inr ⟨fun hn => he (List.isEmpty_iff.2 hn), ?_⟩
+    cases ha : newTypeArgs etype with
+    | none => rw [ha] at h; simp at h
+    | some targs =>
+      rw [ha] at h
+      simp only [Bool.false_eq_true, if_false] at h
+      by_cases hl : targs.length < tparams.length
+      · simp [hl] at h
+      · simp only [hl, if_false, Option.some.injEq] at h
+        exact ⟨targs, rfl, by omega, h.symm⟩
+
+/-- **the expected types of the constructor arguments**: when `gen_new` plans `New(ty, args)` the
+    class is known, and either it is not generic — then `ty` is its type and the arguments are
+    expected at the declared field types (under the empty map) — or it is, and there are type
+    arguments `targs` (those of the instantiated expected type) such that `ty` is
+    `class_decl.get_type().new(targs)` and every argument is expected at the field's type under
+    `substitute_type` with the map `{type parameter ↦ type argument}` -/
+theorem newFromClass_expected (c : NewClass) (etype ty : Ty) (exp : List Ty)
+    (h : newFromClass c etype = .new ty exp) :
+    (c.tparams = [] ∧ ty = c.ty ∧ exp = c.fields.map fun f => substituteType f []) ∨
+    (c.tparams ≠ [] ∧ ∃ targs, newTypeArgs etype = some targs ∧ c.tparams.length ≤ targs.length ∧
+      ty = tconNew c.ty targs ∧ exp = c.fields.map fun f => substituteType f (TMap.mk c.tparams targs)) := by
+  unfold newFromClass at h
+  cases hm : typeParamMap c.tparams etype with
+  | none => rw [hm] at h; cases h
+  | some m =>
+    rw [hm] at h
+    simp only [] at h
+    rcases typeParamMap_some _ _ _ hm with ⟨ht, rfl⟩ | ⟨ht, targs, ha, hl, rfl⟩
+    · simp only [ht, List.isEmpty_nil, if_true, NewPlan.new.injEq] at h
+      exact Or.inl ⟨ht, h.1.symm, h.2.symm⟩
+    · have he : c.tparams.isEmpty = false := by
+        cases hh : c.tparams with
+        | nil => exact absurd hh ht
+        | cons _ _ => rfl
+      simp only [he, Bool.false_eq_true, if_false, ha, NewPlan.new.injEq] at h
+      exact Or.inr ⟨ht, targs, ha, hl, h.1.symm, h.2.symm⟩
+
+private theorem newStep1_cases (e1 : Ty) (ename : String) (insts : List Ty) (e2 : Ty) (n2 : String) (rest : List Ty)
+    (h : newStep1 e1 ename insts = some (e2, n2, rest)) :
+    (e2 = e1 ∧ rest = insts) ∨ insts = e2 :: rest := by
+  unfold newStep1 at h
+  by_cases ht : e1.isTCon = true
+  · simp only [ht, if_true] at h
+    cases insts with
+    | nil => cases h
+    | cons i tl => simp only [Option.some.injEq, Prod.mk.injEq] at h; obtain ⟨rfl, _, rfl⟩ := h; exact Or.inr rfl
+  · simp only [ht] at h
+    simp only [Bool.false_eq_true, if_false, Option.some.injEq, Prod.mk.injEq] at h
+    obtain ⟨rfl, _, rfl⟩ := h; exact Or.inl ⟨rfl, rfl⟩
+
+private theorem newWithClass_new (c : NewClass) (e1 : Ty) (ename : String) (insts : List Ty) (ty : Ty) (exp : List Ty)
+    (h : newWithClass c e1 ename insts = .new ty exp) :
+    ∃ e, newFromClass c e = .new ty exp ∧ (e ∈ insts ∨ e = e1) := by
+  unfold newWithClass at h
+  cases hs : newStep1 e1 ename insts with
+  | none => rw [hs] at h; cases h
+  | some p =>
+    obtain ⟨e2, n2, rest⟩ := p
+    rw [hs] at h
+    simp only [] at h
+    have hc := newStep1_cases e1 ename insts e2 n2 rest hs
+    by_cases hg : (!c.tparams.isEmpty && attrName c.ty != n2) = true
+    · simp only [hg, if_true] at h
+      cases rest with
+      | nil => cases h
+      | cons i tl =>
+        simp only [] at h
+        refine ⟨i, h, Or.inl ?_⟩
+        rcases hc with ⟨_, hr⟩ | hr
+        · rw [← hr]; simp
+        · rw [hr]; simp
+    · simp only [hg] at h
+      refine ⟨e2, h, ?_⟩
+      rcases hc with ⟨he, _⟩ | hr
+      · exact Or.inr he
+      · rw [hr]; exact Or.inl (by simp)
+
+/-- the plan `new` of `gen_new` always comes from `newFromClass` for the class `_get_subclass`
+    returned (not blacklisted), applied to the variance-free expected type or to one of the random
+    instantiations -/
+theorem genNew_new (isFn : Bool) (etype : Ty) (ename : String) (cls : Option NewClass) (anyT voidT : Ty)
+    (black tvnames : List String) (insts : List Ty) (ty : Ty) (exp : List Ty)
+    (h : genNewPlan isFn etype ename cls anyT voidT black tvnames insts = .new ty exp) :
+    ∃ c e, cls = some c ∧ black.contains ename = false ∧ newFromClass c e = .new ty exp ∧
+      (e ∈ insts ∨ e = (if etype.isParam then toVarianceFree etype [] else etype)) := by
+  unfold genNewPlan at h
+  by_cases h1 : isFn = true
+  · simp only [h1, if_true] at h; cases h
+  simp only [h1] at h
+  by_cases h2 : beq anyT (if etype.isParam then toVarianceFree etype [] else etype) = true
+  · simp only [h2, if_true] at h; cases h
+  by_cases h3 : beq voidT (if etype.isParam then toVarianceFree etype [] else etype) = true
+  · simp only [h2, h3, if_true] at h; cases h
+  simp only [h2, h3] at h
+  cases cls with
+  | none => simp only [newBottom] at h; cases h
+  | some c =>
+    simp only [] at h
+    by_cases h4 : black.contains ename = true
+    · simp only [h4, if_true, newBottom] at h; cases h
+    · simp only [h4] at h
+      obtain ⟨e, he, hm⟩ := newWithClass_new c _ ename insts ty exp h
+      exact ⟨c, e, rfl, by simpa using h4, he, hm⟩
+
+/-- **the map `gen_new` substitutes with is the instantiation's own map**: for a class whose
+    constructor carries the class's type parameters (`ClassDeclaration.get_type()` builds it from
+    them), `{type parameter ↦ type argument}` is `get_type_variable_assignments()` of the type of
+    the `New` node, whose type arguments are the given ones -/
+theorem genNew_map_is_instantiation (c : NewClass) (targs : List Ty) (hp : conParams c.ty = c.tparams) :
+    TMap.mk c.tparams targs = typeVarAssignments (tconNew c.ty targs) ∧
+      newTypeArgs (tconNew c.ty targs) = some targs := by
+  have hcp : ∀ (con : Ty) (m : TMap) (ss : List Ty), conParams (conWithSups (performSubst con m) ss) = conParams con := by
+    intro con m ss; cases con <;> simp [performSubst, conWithSups, conParams]
+  simp only [tconNew, typeVarAssignments, newTypeArgs, hcp, hp, and_self]
+
+/-- (by C07, `Heph.Props.C01Gen.genNew_expected_substS`, these are the field types under the syntactic
+    substitution of the instantiation) …and these are the types the verified checker demands for the arguments of the `New` node
+    (`wt_new`): a field type that is not itself a projection is read through `sinkType` exactly as
+    `gen_new` substitutes it -/
+theorem genNew_expected_is_sink (lt : LangTypes) (fields : List Ty) (m : TMap)
+    (h : ∀ f ∈ fields, f.isWild = false) :
+    (fields.map fun f => substituteType f m) = fields.map fun f => sinkType lt f m := by
+  apply List.map_congr_left
+  intro f hf
+  have := h f hf
+  cases f <;> simp_all [sinkType, deproj, Ty.isWild]
+
+private def boxC : Ty := tcon "<class 'src.ir.types.TypeConstructor'>" "Box" [tT] [anyK]
+private def clsPlain : Ty := simple "Plain" [anyK]
+
+/-- the hypotheses are satisfiable: for `class Box<T>(val x: T, val n: Number)` and the expected
+    type `Box<out Long>` the plan is `New(Box<Long>, ..)` with the arguments expected at `Long` and
+    `Number`; a bare `Plain` instantiates the generic subclass at the random instantiation handed
+    in; `Any` is `New(Any, [])`; a blacklisted class gives a bottom constant; and `_get_subclass`
+    offers only regular classes -/
+example :
+    (match genNewPlan false (tconNew boxC [wild 1 (some longK)]) "Box" (some ⟨"Box", boxC, [tT], [tT, numK]⟩)
+        anyK stringK [] [] [] with
+     | .new ty exp => beq ty (tconNew boxC [longK]) && beqL exp [longK, numK]
+     | _ => false) = true ∧
+    (match genNewPlan false clsPlain "Plain" (some ⟨"Box", boxC, [tT], [tT, numK]⟩) anyK stringK [] []
+        [tconNew boxC [floatK]] with
+     | .new ty exp => beq ty (tconNew boxC [floatK]) && beqL exp [floatK, numK]
+     | _ => false) = true ∧
+    (match genNewPlan false anyK "Any" none anyK stringK [] [] [] with | .trivial _ => true | _ => false) = true ∧
+    (match genNewPlan false clsPlain "Plain" (some ⟨"Plain", clsPlain, [], []⟩) anyK stringK ["Plain"] [] [] with
+     | .bottom (some _) => true | _ => false) = true ∧
+    (subclassCandidates [⟨"Plain", true, false, clsPlain⟩, ⟨"Iface", false, false, simple "Iface" [anyK]⟩,
+        ⟨"Box", true, true, boxC⟩] anyK "Any" true).map (·.name) = ["Plain", "Box"] ∧
+    (subclassCandidates [⟨"Plain", true, false, clsPlain⟩, ⟨"Box", true, true, boxC⟩]
+        (tconNew boxC [longK]) "Box" false).map (·.name) = ["Box"] := by
   decide
 
 end Heph.Props.C01
